@@ -2,4 +2,4 @@
 Require Import GeosV.Lib.GeomDefs GeosV.Lib.LocateDefs GeosV.C08.DistDefs.
 Require Extraction.
 Require Import ExtrOcamlBasic.
-Extraction "xc08.ml" dist2 facet_dist2 hausdorff2 directed_h2 frechet2 minclear2 dist2_pt_seg dist2_seg_seg.
+Extraction "xc08.ml" dist2 facet_dist2 facet_and_dist2 hausdorff2 directed_h2 frechet2 minclear2 dist2_pt_seg dist2_seg_seg sections.
